@@ -392,16 +392,17 @@ pub fn closedinj(seed: u64, out: &mut Outcome) {
                 let nc = &sim.nodes[node].conns[&ch];
                 (nc.obs.lost.clone(), nc.obs.drained_events)
             };
+            // (the recorded findings that involve `Reset` are tied to a stateless reset really handled: lostkeys.rs)
+            let resets = sim.ledger.stateless_resets_handled(node, ch);
             if lost.len() > 1 {
-                let kinds: Vec<&str> = lost.iter().map(|l| l.trim_start_matches("ConnectionLost(").split(|c| c == '(' || c == ')' || c == ' ').next().unwrap_or("")).collect();
-                sim.fail(&format!("lost-reported-twice:{}", kinds.join("+")), format!("node {node}: {lost:?}"));
+                sim.fail(&crate::lostkeys::twice_key(&lost, resets), format!("node {node}: {lost:?} (stateless resets of the peer endpoint handled: {resets})"));
             }
             if drained_events > 1 {
                 sim.fail("drain-notified-twice", format!("node {node} conn {ch}"));
             }
             if closed_local[node] && Some(ch) == w.ch[node] && !lost.is_empty() {
                 // (a genuine stateless reset reported after a local close is the recorded finding of scenario `close`)
-                let key = if lost[0].contains("Reset") { "lost-after-local-close:reset" } else if action <= 3 { "lost-after-local-close:unauthenticated-packet" } else { "lost-after-local-close:protocol-error" };
+                let key = crate::lostkeys::after_local_close_key(&lost[0], resets, if action <= 3 { "lost-after-local-close:unauthenticated-packet" } else { "lost-after-local-close:protocol-error" });
                 let what = if action <= 3 { "only datagrams without valid packet protection were injected afterwards" } else { "a packet of its peer with non-zero reserved header bits arrived afterwards" };
                 sim.fail(key, format!("node {node} closed locally (code {code}); {what}, yet it polled {lost:?}"));
             }
